@@ -305,4 +305,22 @@ theorem result_in_range {s : Simp} (hs : SimpSound s) {I : Interp} (hI : I.Std) 
   obtain ⟨a, ha, rfl⟩ := List.mem_map.1 hx
   exact word_denote_lt I a (hargs a ha)
 
+/-- **not_involutive.** `NOT (NOT a)` denotes what `a` denotes — also for a Bool-typed `a` (the case the
+    logical-negation defect fixed in 94e0e3b got wrong: `NOT` of a Bool is the 256-bit complement). -/
+theorem not_involutive {s : Simp} (hs : SimpSound s) {I : Interp} (hI : I.Std) (cfg : WordCfg)
+    (a : HV) (ha : a.WF ∧ a.IsWord) :
+    ∃ r aux r' aux', execWord s cfg .NOT [a] = .ok (r, aux) ∧ execWord s cfg .NOT [r] = .ok (r', aux') ∧
+      r'.denote I = a.denote I := by
+  have one : ∀ x : HV, x.WF ∧ x.IsWord → ∀ y ∈ [x], y.WF ∧ y.IsWord := by
+    intro x hx y hy
+    simp only [List.mem_cons, List.not_mem_nil, or_false] at hy
+    subst hy; exact hx
+  obtain ⟨r, aux, he, hwf, hw, hd, _⟩ := op_exact hs hI cfg .NOT [a] rfl (one a ha) (by intro h; cases h)
+  obtain ⟨r', aux', he', _, _, hd', _⟩ := op_exact hs hI cfg .NOT [r] rfl (one r ⟨hwf, hw⟩) (by intro h; cases h)
+  refine ⟨r, aux, r', aux', he, he', ?_⟩
+  have hlt := word_denote_lt I a ha
+  rw [hd']
+  simp only [List.map_cons, List.map_nil, hd, specOp, Word.not]
+  omega
+
 end HalmosVerif.Props.C06Algebra
